@@ -286,6 +286,42 @@ static void runNested(long n, bool slow)
   { Json j = Json::object(); j.set("ev", "Return").set("c", 1).set("cells", (long long)once); logJ(j); }
 }
 
+// closures scheduled back to back from an idle caller while every worker sleeps, where closure k keeps its worker until
+// closure k + 1 has started: each scheduled closure must get a worker of its own "with no further action of the caller"
+// (a scheduler that posts one wake-up for several queued closures starves the later ones behind the first)
+static void runChain(long n)
+{
+  struct Ctx { std::vector<std::atomic<int>> started, counts; Ctx(size_t n) : started(n), counts(n) { for (auto &c : started) c = 0; for (auto &c : counts) c = 0; } };
+  std::shared_ptr<Ctx> cx(new Ctx((size_t)n));
+  std::this_thread::sleep_for(std::chrono::milliseconds(60));   // let the workers run out of work and go to sleep
+  { Json j = Json::object(); j.set("ev", "Call").set("c", 1).set("n", (long long)n).set("B", 1).set("blocks", false).set("parent", Json::array()); logJ(j); }
+  const long ep = g_epoch.load();
+  for (long k = 0; k < n; ++k) {
+    schedule([cx, k, n, ep]() {
+      if (ep != g_epoch.load()) return;
+      cx->started[(size_t)k] = 1;
+      { Json j = Json::object(); j.set("ev", "ExecBegin").set("c", 1).set("b", (long long)k).set("e", (long long)k + 1); logJ(j, ep); }
+      if (k + 1 < n) {
+        auto t0 = Clock::now();
+        while (!cx->started[(size_t)k + 1].load() && ep == g_epoch.load()) {
+          if (std::chrono::duration_cast<std::chrono::milliseconds>(Clock::now() - t0).count() > 10000) {
+            Json j = Json::object(); j.set("ev", "Abort").set("why", "dependency starved: the closure scheduled right after this one did not start within 10 s although workers are idle"); logJ(j, ep);
+            break;
+          }
+          std::this_thread::yield();
+        }
+      }
+      cx->counts[(size_t)k]++;
+      { Json j = Json::object(); j.set("ev", "ExecEnd").set("c", 1).set("b", (long long)k).set("e", (long long)k + 1); logJ(j, ep); }
+      if (ep == g_epoch.load()) g_fnDone++;
+    });
+  }
+  idleUntilDone((int)n, 15000);
+  long once = 0;
+  for (auto &c : cx->counts) once += c.load() == 1 ? 1 : 0;
+  { Json j = Json::object(); j.set("ev", "Return").set("c", 1).set("cells", (long long)once); logJ(j); }
+}
+
 static Json collect(bool burst)
 {
   std::vector<Ev> all;
@@ -363,6 +399,8 @@ int main(int argc, char **argv)
       const std::string fl = j["flow"].str();
       runBurst(j["n"].num(), true, j["slow"].boolean(), fl == "fewer" ? std::max(2, threads - 1) : fl == "more" ? threads + 1 : threads);
       initTaskingSystem(threads);
+    } else if (kind == "chain") {
+      runChain(j["n"].num());
     } else if (kind == "nested") {
       runNested(j["n"].num(), j["slow"].boolean());
     } else if (kind == "atask") {
@@ -377,10 +415,10 @@ int main(int argc, char **argv)
       else if (type == "vector") dispatchAsync<std::vector<int>>(j);
       else dispatchAsync<Tracked>(j);
     }
-    if (kind != "burst" && kind != "nested" && kind != "reinit") { Json e = Json::object(); e.set("ev", "End"); logJ(e); }
+    if (kind != "burst" && kind != "nested" && kind != "reinit" && kind != "chain") { Json e = Json::object(); e.set("ev", "End"); logJ(e); }
     Json r = Json::object();
     r.set("id", j["id"]);
-    r.set("events", collect(kind == "burst" || kind == "nested" || kind == "reinit"));
+    r.set("events", collect(kind == "burst" || kind == "nested" || kind == "reinit" || kind == "chain"));
     of << r.dump() << "\n";
     of.flush();
   }
